@@ -253,6 +253,18 @@ def truthy(ctx, v):
         return False
     if type(v).__name__ == 'HDict':
         return v.total() > 0
+    if type(v).__name__ == 'LazySeq':
+        return ctx.decide(zint(v.total_len()) != 0)
+    if type(v).__name__ == 'SymDict':
+        return len(v.items) > 0
+    if isinstance(v, (list, tuple)) and v and all(type(e).__name__ == 'Chunk' for e in v):
+        from .seq import seq_len
+        t = I(0)
+        for e in v:
+            ln = zint(e.length) if e.length is not None else seq_len(e.term)
+            ctx.assume(ln >= 0)
+            t = t + ln
+        return ctx.decide(t != 0)
     if isinstance(v, (bool, int, float, str, bytes, bytearray, list, tuple, dict, set, frozenset)):
         return bool(v)
     if is_symbool(v):
